@@ -7,11 +7,17 @@ M_NC = "netconan.netconan:"
 M_JS = "netconan.utils.juniper_secrets:"
 
 IP_LEMMAS = ["LA_len", "LA_inj", "LD_len", "LAD", "LDA", "LG_len", "LG_inj", "LA_prefix",
-             "S_take_app1", "S_take_app2", "S_take_take", "S_take_drop", "LG_prefix", "T_cpl", "T_perm"]
+             "S_take_app1", "S_take_app2", "S_take_take", "S_take_drop", "LG_prefix", "T_cpl", "T_perm",
+             "S_init_take", "S_take_all", "LC_parent", "LC_prefix", "LA_seed", "S_split", "LG_seed",
+             "L_sp_mono", "L_initok_add", "S_snoc", "L_sp_in", "T_seedpath", "T_hostbits"]
 
 IP_CORE = [M_IP + "_generate_bit_from_hash", M_IP + "_BaseIpAnonymizer.__init__",
            M_IP + "_BaseIpAnonymizer.anonymize", M_IP + "_BaseIpAnonymizer._anonymize_bits",
-           M_IP + "IpV6Anonymizer.__init__"]
+           M_IP + "IpV6Anonymizer.__init__", M_IP + "IpAnonymizer.__init__"]
+IP_TEXT = [M_IP + "IpAnonymizer._is_mask", M_IP + "IpAnonymizer.should_anonymize",
+           M_IP + "_anonymize_match@v4", M_IP + "_anonymize_match@v6",
+           M_IP + "anonymize_ip_addr@v4", M_IP + "anonymize_ip_addr@v6"]
+IP_DUMP = [M_IP + "_BaseIpAnonymizer.dump_to_file@v4", M_IP + "_BaseIpAnonymizer.dump_to_file@v6"]
 IP_UNDO = [M_IP + "_BaseIpAnonymizer.deanonymize", M_IP + "_BaseIpAnonymizer._deanonymize_bits"]
 
 PROPS = {
@@ -33,7 +39,7 @@ PROPS = {
     "C02": dict(
         level="proof",
         lemmas=IP_LEMMAS,
-        functions=IP_CORE + IP_UNDO,
+        functions=IP_CORE + IP_UNDO + IP_TEXT,
         standins=[("rt_ip", "C02")],
         design_ref="7/C02",
         technique="deductive verification of deanonymize/_deanonymize_bits against spec D/Ginv plus inverse lemmas "
@@ -54,5 +60,49 @@ PROPS = {
              "deanonymize and their helpers; every postcondition is phrased over configuration and argument only, so "
              "induction over request histories follows.",
         note="as C01",
+    ),
+    "C04": dict(
+        level="proof",
+        lemmas=IP_LEMMAS,
+        functions=IP_CORE,
+        standins=[("rt_ip", "C04")],
+        design_ref="7/C04",
+        technique="deductive verification of the seeding loops of IpAnonymizer.__init__ (loop invariants, opaque "
+                  "predicates InitOK/SeededPath) plus theorems T_seedpath and T_hostbits over spec G (pyvc, z3+cvc5)",
+        text="The constructor's postcondition (every listed prefix - defaults from the property text or the user's "
+             "list, plus preserved networks - has a fully seeded path) is proved with inductive loop invariants; "
+             "T_seedpath proves inside<->inside for any seeded path and T_hostbits proves that the trailing bits are "
+             "copied and the leading image bits depend only on the leading input bits.",
+        note="as C01 plus E-ipaddress (ip_network/prefixlen/network_address, literal networks evaluated with the "
+             "stdlib); exactness of the seeded set (nothing else pinned) is not claimed",
+    ),
+    "C05": dict(
+        level="proof",
+        lemmas=IP_LEMMAS,
+        functions=IP_CORE + IP_TEXT,
+        standins=[("rt_ip", "C05")],
+        design_ref="7/C05",
+        technique="bit-vector proof of _is_mask against the 66-disjunct spec; contracts on should_anonymize and "
+                  "_anonymize_match (skip branch returns the text as written); seeding post + T_seedpath (pyvc, z3+cvc5)",
+        text="_is_mask equals the mask/wildcard set of the statement on all of [0,2^32) (64-bit vectors with no-wrap "
+             "obligations); should_anonymize is false exactly for masks and members of a preserved network; "
+             "_anonymize_match then returns the matched text itself; preserved networks are seeded by the constructor "
+             "so T_seedpath excludes collisions.",
+        note="as C04 plus E-dropzeros (value of a dotted quad with leading zeros: trusted contract on make_addr) and "
+             "E-resub",
+    ),
+    "C17": dict(
+        level="proof",
+        lemmas=IP_LEMMAS,
+        functions=IP_CORE + IP_UNDO + IP_TEXT + IP_DUMP,
+        standins=[("rt_ip", "C17")],
+        design_ref="7/C17",
+        technique="contract on dump_to_file (loop invariant over the dict enumeration, ghost output stream) + WF "
+                  "(memo[k]==G(k)) + coverage postconditions of anonymize/_anonymize_match (pyvc, z3+cvc5)",
+        text="anonymize ensures the full address is a memo key and every method only extends the memo; dump_to_file "
+             "writes, for every full-length key, the line built from the key and its memoised image (= G(key) by WF), "
+             "and adds at most one line per entry.",
+        note="as C01 plus E-dict-iteration, E-ipaddress (str of an address is injective: assumed, not used in the "
+             "proof obligations), E-os (write appends to the file only)",
     ),
 }
